@@ -135,7 +135,7 @@ fn @name@() {
     sub_pairs = [(f, g) for (f, g) in same_node_pairs if NODE_OF[f] >= 3]       # 1 + 1 + 15 + 1 = 18
     cross = [(14, 16), (15, 18), (17, 24), (2, 15), (11, 19), (6, 25)]
     if tier == "quick":
-        pairs = [sub_pairs[:2][seed % 2]] + rnd.sample(sub_pairs[2:-1], 2) + sub_pairs[-1:] + [cross[seed % len(cross)]]
+        pairs = [sub_pairs[:2][seed % 2]] + rnd.sample(sub_pairs[2:-1], 1) + [cross[seed % len(cross)]]
     else:
         pairs = same_node_pairs + cross
     for (f, g) in pairs:
@@ -283,7 +283,7 @@ fn @name@() {
         # three of the capture/use polarity classes per run, features rotating with VERIF_SEED (thorough runs them all)
         rot = [15, 20, 11, 24, 16, 6, 2]
         f0, f1, f2 = rot[seed % 7], rot[(seed + 2) % 7], rot[(seed + 4) % 7]
-        alpha_shapes = [(f0, f0, False, True), (f1, f1, True, False), (f2, rot[(seed + 1) % 7], False, False)]
+        alpha_shapes = [(f0, f0, False, True), [(f1, f1, True, False), (f2, rot[(seed + 1) % 7], False, False)][seed % 2]]
     else:
         alpha_shapes = [(f, f, ic, iu) for f in range(n) for (ic, iu) in [(False, False), (False, True)]]
         alpha_shapes += [(f, f, True, False) for f in per_node]
@@ -332,7 +332,7 @@ fn @name@() {
             unwindset=UNWINDSET, stubs=STUBS, cap_s=2400, weight=5))
 
     # node alphas
-    node_shapes = [3, [6, 4, 7, 5][seed % 4]] if tier == "quick" else [0, 1, 2, 3, 4, 5, 6, 7]      # the whole-place alpha always; one sub-node rotating
+    node_shapes = [3] if tier == "quick" else [0, 1, 2, 3, 4, 5, 6, 7]      # the whole-place alpha always; one sub-node rotating
     for ni in node_shapes:
         nd = G.NODES[ni]
         nm = "c04_alpha_node_%s" % nd.lower()
